@@ -11,6 +11,7 @@
 package simnet
 
 import (
+	"context"
 	"errors"
 	"io"
 	"net"
@@ -32,6 +33,7 @@ var (
 	fCoalesced   = simrt.NewFault("link.segments.coalesced")
 	fLatency     = simrt.NewFault("link.delivery.delayed")
 	fDeadline    = simrt.NewFault("link.deadline.expired")
+	fTransient   = simrt.NewFault("link.write.transient.error(0.bytes.accepted)")
 	fEOFWithData = simrt.NewFault("link.eof.delivered.with.last.bytes")
 	ErrReset     = errors.New("simnet: connection reset by peer")
 	ErrInjected  = errors.New("simnet: injected I/O error")
@@ -67,6 +69,10 @@ type LinkCfg struct {
 	// takes the last delivered bytes, the error is returned together with them
 	// (n > 0, err) instead of on the next call - legal for an io.Reader.
 	EOFWithData bool
+	// FailWriteCall: the n-th Write call on this direction (1-based) accepts no
+	// byte and returns a timeout-like error once; the connection stays usable
+	// (what a write deadline that is then extended looks like). 0 = never.
+	FailWriteCall int
 }
 
 // DrawCfgFor is DrawCfg for a stream expected to carry about total bytes:
@@ -137,6 +143,7 @@ type dir struct {
 	readers     []*kernel.Task
 	writers     []*kernel.Task
 	pendingSegs int
+	writeCalls  int
 }
 
 type addr string
@@ -299,6 +306,13 @@ func (c *Conn) Write(p []byte) (int, error) {
 	t := c.yield("net.write")
 	d := c.out
 	done := 0
+	if d.cfg.FailWriteCall > 0 && d.writeCalls+1 == d.cfg.FailWriteCall && len(p) > 0 {
+		d.writeCalls++
+		fTransient.Hit()
+		c.w.Note("fault", "link "+c.name+" write call fails once with a timeout, 0 bytes accepted")
+		return 0, timeoutErr{}
+	}
+	d.writeCalls++
 	for {
 		if c.closed {
 			return done, net.ErrClosed
@@ -502,6 +516,40 @@ func itoa(v int64) string {
 
 // Dial is set by harnesses; woven net.Dial calls land here.
 var Dial func(network, address string) (net.Conn, error)
+
+// DialTimeoutHook replaces net.DialTimeout in woven files.
+func DialTimeoutHook(network, address string, timeout time.Duration) (net.Conn, error) {
+	if Dial == nil {
+		return net.DialTimeout(network, address, timeout)
+	}
+	return Dial(network, address)
+}
+
+// Dialer replaces net.Dialer in woven files (the fields a dialling helper
+// typically sets; all of them are ignored by the simulated dial).
+type Dialer struct {
+	Timeout   time.Duration
+	Deadline  time.Time
+	KeepAlive time.Duration
+	LocalAddr net.Addr
+}
+
+func (d *Dialer) Dial(network, address string) (net.Conn, error) {
+	if Dial == nil {
+		return (&net.Dialer{Timeout: d.Timeout, Deadline: d.Deadline, KeepAlive: d.KeepAlive}).Dial(network, address)
+	}
+	return Dial(network, address)
+}
+
+func (d *Dialer) DialContext(ctx context.Context, network, address string) (net.Conn, error) {
+	if Dial == nil {
+		return (&net.Dialer{Timeout: d.Timeout, Deadline: d.Deadline, KeepAlive: d.KeepAlive}).DialContext(ctx, network, address)
+	}
+	if err := ctx.Err(); err != nil {
+		return nil, err
+	}
+	return Dial(network, address)
+}
 
 // DialHook replaces net.Dial in woven files.
 func DialHook(network, address string) (net.Conn, error) {
